@@ -261,6 +261,29 @@ def check_layout(case):
                     pdev.validate_register(auto)
                 except Exception as e:
                     out.append((f"C12:automatic-layout-rejected:{type(e).__name__}", f"{natoms} atoms, max filling {fill}, traps [{mint},{maxt}]: {e}"[:250]))
+                # the same atoms already sitting on a FOREIGN layout that does not fit this device (exactly the atoms as traps: over-filled
+                # and usually too few traps; one far-away extra trap; two extra traps too close to each other): the device-aware constructor
+                # still has to hand back a register that this device accepts
+                for fk, extra in (("atoms-only", []), ("far-trap", [(400.0, 0.0)]), ("close-traps", [(60.0, 60.0), (60.5, 60.0)])):
+                    try:
+                        foreign = RegisterLayout(pts + extra)
+                        onit = foreign.define_register(*foreign.get_traps_from_coordinates(*pts), qubit_ids=[f"q{i}" for i in range(natoms)])
+                    except Exception:
+                        continue
+                    try:
+                        pdev.validate_register(onit)
+                        continue  # this layout happens to fit: nothing to show
+                    except Exception:
+                        pass
+                    try:
+                        auto2 = onit.with_automatic_layout(pdev)
+                        pdev.validate_register(auto2)
+                        from pulser import Sequence
+
+                        Sequence(auto2, pdev)
+                    except Exception as e:
+                        out.append((f"C12:automatic-layout-rejected:register-with-a-foreign-layout:{fk}:{type(e).__name__}",
+                                    f"{natoms} atoms, max filling {fill}, traps [{mint},{maxt}]: {e}"[:250]))
             return out + [("@layout", "")]
         if case[0] == "fillmax":
             from pulser import Sequence
